@@ -21,7 +21,9 @@ RULE = ("scenarios = <=5 launches (event trigger / service call / @task_unique-d
         "task.sleep(k*10ms) / raise / finish over <=3 names and 2 global contexts (two script files); families: "
         "A = sampled from the full product of 3 tasks x 2 steps x start offsets in one context, B = random 2-5 tasks "
         "over both contexts with all launch kinds, C = directed shapes (same-instant double dispatch of a decorated "
-        "function, decorated vs running owner, foreign callers, nested context names with dotted task names - since "
+        "function, an occurrence of one trigger of a decorated function while a run started by another of its triggers "
+        "is alive - every decorated function carries two @event_trigger and one @state_trigger, the launch says which "
+        "fires -, decorated vs running owner, foreign callers, nested context names with dotted task names - since "
         "/repo ef1f444 expected to be as separate as any other two contexts). "
         "Every scenario runs under legacy_decorators True and False.  Non-trivial = at least one task.unique step or "
         "decorator; distinct by payload.")
@@ -79,8 +81,11 @@ def gen_files(p):
         decos = sorted({(l[4][0], bool(l[4][1])) for l in p["launch"] if l[2] == ci and l[1] == "deco"})
         for name, km in decos:
             fn = f"dk_{c}_{ident(name)}_{int(km)}"
-            src += [f"@event_trigger('{fn}')", f"@task_unique({name!r}, kill_me={km})", f"def {fn}(i=None):",
-                    "    runner(i)", ""]
+            # every decorated function has THREE trigger decorators - two of the same kind and one of another kind -
+            # all of which must apply the same @task_unique rule (launch field deco[2] says which one fires)
+            src += [f"@event_trigger('{fn}')", f"@event_trigger('{fn}_b')", f"@state_trigger('pyscript.{fn}_s')",
+                    f"@task_unique({name!r}, kill_me={km})", f"def {fn}(i=None, value=None, **kwargs):",
+                    "    if i is None:", "        i = int(value)", "    runner(i)", ""]
         files[CTX_FILE[ctx]] = "\n".join(src)
     return files
 
@@ -208,7 +213,14 @@ async def _body(env, p):
             elif kind == "svc":
                 loop.create_task(env.hass.services.async_call("pyscript", f"svc_{c}", {"i": i}, blocking=False))
             elif kind == "deco":
-                env.hass.bus.async_fire(f"dk_{c}_{ident(deco[0])}_{int(bool(deco[1]))}", {"i": i})
+                fn = f"dk_{c}_{ident(deco[0])}_{int(bool(deco[1]))}"
+                which = deco[2] if len(deco) > 2 else 0
+                if which == 0:
+                    env.hass.bus.async_fire(fn, {"i": i})
+                elif which == 1:
+                    env.hass.bus.async_fire(fn + "_b", {"i": i})
+                else:
+                    env.hass.states.async_set(f"pyscript.{fn}_s", str(i))
             else:
                 g = ctx_objs[ctx]
                 func = g.global_sym_table["runner"]
@@ -507,7 +519,7 @@ def family_b(rng, n):
         for t in range(nt):
             plans.append(rand_plan(rng, names))
             kind = rng.choices(["trig", "svc", "deco", "foreign"], [50, 15, 20, 15])[0]
-            deco = [rng.choice(names), rng.random() < 0.5] if kind == "deco" else None
+            deco = [rng.choice(names), rng.random() < 0.5, rng.randrange(3)] if kind == "deco" else None
             launch.append([rng.randrange(4), kind, rng.randrange(2) if rng.random() < 0.4 else 0, t, deco])
         out += both({"ctxs": FLAT, "plans": plans, "launch": launch}, ("B",))
     return out
@@ -524,6 +536,17 @@ def family_c(rng, n):
             if later is not None:
                 launch.append([later, "deco", 0, len(launch), ["n0", km]])
             out += both({"ctxs": FLAT, "plans": [list(hold) for _ in launch], "launch": launch}, ("C", "deco-burst"))
+        # one function, several trigger decorators (0/1 = two @event_trigger, 2 = @state_trigger): an occurrence of
+        # one trigger while a run started by another trigger is alive, every ordered pair, and all three in a row
+        for a in range(3):
+            for b in range(3):
+                if a != b:
+                    out += both({"ctxs": FLAT, "plans": [list(hold), list(hold)],
+                                 "launch": [[0, "deco", 0, 0, ["n0", km, a]], [1, "deco", 0, 1, ["n0", km, b]]]},
+                                ("C", "deco-multi-trigger"))
+        out += both({"ctxs": FLAT, "plans": [[["s", 4]], list(hold), list(hold)],
+                     "launch": [[0, "deco", 0, 0, ["n0", km, 1]], [1, "deco", 0, 1, ["n0", km, 2]],
+                                [2, "deco", 0, 2, ["n0", km, 0]]]}, ("C", "deco-multi-trigger"))
         # decorated run against an owner that claimed by task.unique
         out += both({"ctxs": FLAT, "plans": [[["u", "n0", False], ["s", 3]], [["s", 1]]],
                      "launch": [[0, "trig", 0, 0, None], [1, "deco", 0, 1, ["n0", km]]]}, ("C", "deco-vs-owner"))
